@@ -47,6 +47,17 @@ pub struct MonState {
     pub max_gas_accounted: usize,
     pub cost_at:         Vec<usize>,
     pub want_executed:   bool,
+    // fork-decision conformance (enabled by `observe: ["forks"]`)
+    pub want_forks:      bool,
+    pub lim_iters:       usize,
+    pub lim_forks:       usize,
+    pub jumpi_target:    std::collections::HashMap<u32, u32>,
+    pub thread_visits:   Vec<std::collections::HashMap<u32, usize>>,
+    pub forks_done:      std::collections::HashMap<u32, usize>,
+    pub pending_jumpi:   Option<(u32, u32, bool, bool)>,
+    pub fork_decisions:  u64,
+    pub fork_refusals_expected: u64,
+    pub fork_mismatches: Vec<(u32, u32, bool, bool, usize, usize)>,
     pub culled:          u64,
     pub culled_ids:      std::collections::HashMap<String, u32>,
     pub culled_dups:     Vec<(String, u32, u32)>,
@@ -103,6 +114,16 @@ impl MonState {
             max_gas_accounted: 0,
             cost_at: Vec::new(),
             want_executed: false,
+            want_forks: false,
+            lim_iters: 0,
+            lim_forks: 0,
+            jumpi_target: std::collections::HashMap::new(),
+            thread_visits: vec![std::collections::HashMap::new()],
+            forks_done: std::collections::HashMap::new(),
+            pending_jumpi: None,
+            fork_decisions: 0,
+            fork_refusals_expected: 0,
+            fork_mismatches: Vec::new(),
             culled: 0,
             culled_ids: std::collections::HashMap::new(),
             culled_dups: Vec::new(),
@@ -207,6 +228,9 @@ impl MonState {
             "stop_site": self.stop_site,
             "max_gas_accounted": self.max_gas_accounted,
             "executed_ips": if self.want_executed { json!(self.executed.iter().collect::<Vec<_>>()) } else { J::Null },
+            "fork_decisions": self.fork_decisions,
+            "fork_refusals_expected": self.fork_refusals_expected,
+            "fork_mismatches": self.fork_mismatches.iter().map(|(ip, t, e, a, v, g)| json!({"ip": ip, "target": t, "expected": e, "actual": a, "thread_visits_of_target": v, "forks_to_target": g})).collect::<Vec<_>>(),
             "culled": self.culled,
             "culled_dups": self.culled_dups.iter().map(|(id, a, b)| json!([id, a, b])).collect::<Vec<_>>(),
             "culled_under": self.culled_under.iter().map(|(ip, n, l)| json!([ip, n, l])).collect::<Vec<_>>(),
@@ -231,12 +255,44 @@ fn splitmix(x: &mut u64) -> u64 {
     z ^ (z >> 31)
 }
 
+impl MonState {
+    /// The JUMPI whose decision was pending has finished: did it fork exactly when the limits allowed it to?
+    fn resolve_pending_jumpi(&mut self) {
+        if let Some((ip, target, expected, actual)) = self.pending_jumpi.take() {
+            self.fork_decisions += 1;
+            if !expected {
+                self.fork_refusals_expected += 1;
+            }
+            if expected != actual && self.fork_mismatches.len() < 20 {
+                let ti = self.thread_now as usize;
+                let v = self.thread_visits.get(ti).and_then(|m| m.get(&target)).copied().unwrap_or(0);
+                let g = self.forks_done.get(&target).copied().unwrap_or(0);
+                self.fork_mismatches.push((ip, target, expected, actual, v, g));
+            }
+        }
+    }
+}
+
 impl Monitor for DriverMonitor {
     fn event(&mut self, event: Event) {
         let mut s = self.0.borrow_mut();
         match event {
             Event::Step { ip, gas, visits } => {
                 s.steps += 1;
+                if s.want_forks {
+                    s.resolve_pending_jumpi();
+                    let ti = s.thread_now as usize;
+                    while s.thread_visits.len() <= ti {
+                        s.thread_visits.push(std::collections::HashMap::new());
+                    }
+                    *s.thread_visits[ti].entry(ip).or_insert(0) += 1;
+                    if let Some(&target) = s.jumpi_target.get(&ip) {
+                        let v = s.thread_visits[ti].get(&target).copied().unwrap_or(0);
+                        let g = s.forks_done.get(&target).copied().unwrap_or(0);
+                        let expected = v < s.lim_iters && g < s.lim_forks;
+                        s.pending_jumpi = Some((ip, target, expected, false));
+                    }
+                }
                 if s.want_executed {
                     s.executed.insert(ip);
                 }
@@ -273,6 +329,8 @@ impl Monitor for DriverMonitor {
                 s.tr(|| format!("S{t}:{ip}:{gas}:{visits}"));
             }
             Event::OpError { ip, error, recorded } => {
+                // a JUMPI that failed (e.g. for want of a condition) took no fork decision
+                s.pending_jumpi = None;
                 // a failed instruction is not charged (and ends its thread)
                 let ti = s.thread_now as usize;
                 if ti < s.thread_pending.len() {
@@ -296,6 +354,9 @@ impl Monitor for DriverMonitor {
                 out_of_gas,
                 killed,
             } => {
+                if s.want_forks {
+                    s.resolve_pending_jumpi();
+                }
                 s.retires += 1;
                 if s.retire_gas.len() < 20_000 {
                     s.retire_gas.push((ip, gas));
@@ -317,6 +378,18 @@ impl Monitor for DriverMonitor {
                 s.thread_now += 1;
             }
             Event::Fork { from, to } => {
+                if s.want_forks {
+                    if let Some((ip, target, expected, _)) = s.pending_jumpi {
+                        if ip == from && target == to {
+                            s.pending_jumpi = Some((ip, target, expected, true));
+                        }
+                    }
+                    *s.forks_done.entry(to).or_insert(0) += 1;
+                    // the new thread inherits the visit counts of the thread that forked it
+                    let parent = s.thread_now as usize;
+                    let inherited = s.thread_visits.get(parent).cloned().unwrap_or_default();
+                    s.thread_visits.push(inherited);
+                }
                 s.forks += 1;
                 s.threads_created += 1;
                 let parent = s.thread_now as usize;
